@@ -652,6 +652,68 @@ def run(ctx):
             ctx.fail("asconsum:failure-count", "%d check lists with a mismatch: exit %d, %d FAILED lines" % (nbad, rc, o.decode().count("FAILED")))
         ctx.stat("nontrivial", 2)
 
+    # ---------------- named pipes as input and as key file; the writer connects late (after the tool has started) and delivers in pieces with pauses
+    import threading
+    dq = wd()
+
+    def late_writer(path, pieces, delay):
+        def body():
+            time.sleep(delay)
+            fd = None
+            for _ in range(400):         # a non-blocking open succeeds as soon as the tool has the pipe open (or is waiting in open) for reading
+                try:
+                    fd = os.open(path, os.O_WRONLY | os.O_NONBLOCK)
+                    break
+                except OSError:
+                    time.sleep(0.01)
+            if fd is None:
+                return
+            import fcntl
+            fcntl.fcntl(fd, fcntl.F_SETFL, fcntl.fcntl(fd, fcntl.F_GETFL) & ~os.O_NONBLOCK)
+            try:
+                for i, piece in enumerate(pieces):
+                    if i:
+                        time.sleep(0.15)
+                    os.write(fd, piece)
+            except OSError:
+                pass
+            os.close(fd)
+        th = threading.Thread(target=body)
+        th.start()
+        return th
+
+    for n, cuts, delay in ((0, (), 0.3), (1, (), 0.3), (5000, (1,), 0.3), (5000, (4999,), 0.0), (20000, (1024, 1025, 9000), 0.3), (70000, (65536,), 0.5)):
+        data = content(n, 1)
+        pieces = [data[a:b] for a, b in zip((0,) + cuts, cuts + (n,))]
+        for what in ("input", "keyfile"):
+            fifo = os.path.join(dq, "p.fifo")
+            if os.path.exists(fifo):
+                os.unlink(fifo)
+            os.mkfifo(fifo)
+            if what == "input":
+                th = late_writer(fifo, pieces, delay)
+                rc, o, e = tool([crypt, "-e", "-p", "pw", "-o", "q.enc", "p.fifo"], cwd=dq, timeout=60)
+                th.join()
+                rc2, o2, e2 = tool([crypt, "-d", "-p", "pw", "-o", "q.out", "q.enc"], cwd=dq) if rc == 0 else (None, b"", b"")
+                got = open(os.path.join(dq, "q.out"), "rb").read() if rc2 == 0 else None
+                if rc != 0 or rc2 != 0 or got != data:
+                    ctx.fail("asconcrypt:named-pipe:input", "%d bytes through a named pipe whose writer connects %.1f s late in %d pieces: encrypt exit %s, decrypt exit %s, %s" % (n, delay, len(pieces), rc, rc2, "content differs (%s bytes)" % (len(got) if got is not None else "no") if got != data else "ok"))
+            elif n in (1, 5000):
+                key = (b"k" * min(n, 700)) + b"\n"
+                write(os.path.join(dq, "k.txt"), key)
+                write(os.path.join(dq, "kp.bin"), content(333, 1))
+                th = late_writer(fifo, [key[:1], key[1:]] if len(key) > 1 else [key], delay)
+                rc, o, e = tool([crypt, "-e", "-k", "p.fifo", "-o", "k.enc", "kp.bin"], cwd=dq, timeout=60)
+                th.join()
+                rc2, o2, e2 = tool([crypt, "-d", "-k", "k.txt", "-o", "k.out", "k.enc"], cwd=dq) if rc == 0 else (None, b"", b"")
+                if rc != 0 or rc2 != 0 or open(os.path.join(dq, "k.out"), "rb").read() != content(333, 1):
+                    ctx.fail("asconcrypt:named-pipe:keyfile", "key file read from a named pipe whose writer connects late (%d key characters): encrypt exit %s, decrypt with the same key from a regular file exit %s" % (len(key) - 1, rc, rc2))
+            for f in ("q.enc", "q.out", "k.enc", "k.out"):
+                try:
+                    os.unlink(os.path.join(dq, f))
+                except OSError:
+                    pass
+            ctx.stat("nontrivial")
     # ---------------- file names and places: names with spaces, newlines, leading dashes, non-ASCII bytes, the longest component; sub-directories; outputs in missing directories; directories as input or output
     d = wd()
     os.makedirs(os.path.join(d, "sub dir"))
